@@ -184,6 +184,25 @@ def struct_faults(w, msg_bytes, r):
                 x = fresh()
                 x.modules[mi].sections[si].byte_intervals[0].uuid = x.modules[mi].sections[si].uuid
                 emit("dup_uuid:own_bi=section:%d.%d" % (mi, si), x)
+    # the same UUID carried by THREE nodes (double fault; "for any byte string" covers it):
+    # a same-kind duplicate is decoded as a move of the first node, which takes its UUID out
+    # of the table until the new owner is attached - a third carrier can slip through then
+    trip = [(i, j, k) for i in range(len(nodes)) for j in range(len(nodes)) for k in range(len(nodes)) if len({i, j, k}) == 3]
+    if trip:
+        r.shuffle(trip)
+        seen3 = set()
+        for i, j, k in trip:
+            key3 = (nodes[i][0], nodes[j][0], nodes[k][0])
+            if key3 in seen3 or nodes[i][0] != nodes[j][0]:
+                continue
+            seen3.add(key3)
+            if len(seen3) > 24:
+                break
+            x = fresh()
+            xn = all_nodes(x)
+            xn[j][1].uuid = xn[i][1].uuid
+            xn[k][1].uuid = xn[i][1].uuid
+            emit("dup3_uuid:%s=%s=%s:%d,%d,%d" % (nodes[i][0], nodes[j][0], nodes[k][0], i, j, k), x)
     # an interval and one of its own blocks
     for mi, m in enumerate(base.modules):
         for si, s in enumerate(m.sections):
@@ -322,7 +341,7 @@ def apply_fault(w, desc, data, chunks, seed_parts, tier_frac):
     """Re-create one fault from its descriptor (replay)."""
     kind = desc.split(":")[0]
     r = _rng(*seed_parts, "struct")
-    if kind in ("dangling", "illtyped", "dup_uuid", "enum", "version_field", "bytes_gt_size", "oneof_unset", "aux") or kind.startswith("uuid_len"):  # structural
+    if kind in ("dangling", "illtyped", "dup_uuid", "dup3_uuid", "enum", "version_field", "bytes_gt_size", "oneof_unset", "aux") or kind.startswith("uuid_len"):  # structural
         for d, body, exp in struct_faults(w, data[8:], r):
             if d == desc:
                 return data[:8] + body, exp
